@@ -61,17 +61,20 @@ func C12(p *Prog, r *Run) {
 			return
 		}
 		// same condition, opposite sides
+		// The test may be written as ==, != (either operand order) or under !; what
+		// is decided is the fact each arm establishes: "source is a bias neuron" holds
+		// where the bias is folded and is refuted where the connection is created.
 		var cond ssa.Value
+		var srcType *Term
 		var biasSide, linkSide bool
 		for _, g := range Guards(biasStore.Block()) {
-			t := tm.Of(g.Cond)
-			if t.Op == "bin" && t.Name == "==" && strings.HasSuffix(t.Args[0].String(), ".InNode.NeuronType") && t.Args[1].String() == biasC.Val().ExactString() {
-				cond, biasSide = g.Cond, g.True
+			if core, st, isBias, ok := c12BiasTest(tm, g.Cond, g.True, biasC.Val().ExactString()); ok {
+				cond, srcType, biasSide = core, st, isBias
 			}
 		}
 		for _, g := range Guards(linkAlloc.Block()) {
-			if g.Cond == cond {
-				linkSide = !g.True
+			if core, _, isBias, ok := c12BiasTest(tm, g.Cond, g.True, biasC.Val().ExactString()); ok && core == cond {
+				linkSide = !isBias
 			}
 		}
 		r.Check(cond != nil && biasSide && linkSide, "partition", p.Pos(biasStore.Pos()), "bias folding and connection creation are the two arms of `source.NeuronType == BiasNeuron`",
@@ -88,8 +91,7 @@ func C12(p *Prog, r *Run) {
 			okV = old.Op == "elem" && isParamIdx(old.Args[0], 2) && old.Args[1].V == idx && w.Op == "field" && w.Name == "ConnectionWeight"
 			// the link whose weight is added is the one whose source was tested
 			if okV && cond != nil {
-				ct := tm.Of(cond)
-				okV = strings.HasPrefix(ct.Args[0].String(), w.Args[0].String()+".")
+				okV = strings.HasPrefix(srcType.String(), w.Args[0].String()+".")
 			}
 		}
 		r.Check(okV, "bias.accumulate", p.Pos(biasStore.Pos()), "biases[target] += link.ConnectionWeight", "the bias of the target neuron is not accumulated as biases[target] + link.ConnectionWeight: "+v.String())
@@ -392,6 +394,7 @@ func C12(p *Prog, r *Run) {
 		ra := p.Func(PkgN, "FastModularNetworkSolver.recursiveActivateNode")
 		tr := NewTermer(ra)
 		nSum := 0
+		var sumStores []*ssa.Store
 		Instrs(ra, func(_ *ssa.BasicBlock, _ int, in ssa.Instruction) {
 			st, ok := in.(*ssa.Store)
 			if !ok {
@@ -410,11 +413,13 @@ func C12(p *Prog, r *Run) {
 					cur := w.Args[1].V
 					if sig.Op == "elem" && sig.Args[1].V == adj && cur == ia.Index && (strings.HasSuffix(sig.Args[0].String(), ".neuronSignals") || strings.HasSuffix(sig.Args[0].String(), ".lastActivation")) {
 						nSum++
+						sumStores = append(sumStores, st)
 					}
 				}
 			}
 		})
 		r.Check(nSum == 2, "fast.recursive.sum", p.Pos(ra.Pos()), "processed[node] += signal[adj]*matrix[adj][node] (last activation on cycles)", fmt.Sprintf("recursive activation sums its inputs at %d site(s) as signal[adj]*matrix[adj][node]; expected the forward and the recurrent case", nSum))
+		r.c12RecursiveReset(ra, sumStores)
 		_ = token.ADD
 	})
 }
